@@ -121,7 +121,6 @@
        (= (select (Kind h) r) KOBJ)
        (< 0 (select (Omap h) r)) (< (select (Omap h) r) (next h))
        (= (select (Kind h) (select (Omap h) r)) KMAP)
-       (<= 0 (select (MCard h) (select (Omap h) r)))
        ((_ is VObj) (select (Optr h) r))
        (= (impl (voref (select (Optr h) r))) r)
        (forall ((k Str)) (! (=> (select (select (MDom h) (select (Omap h) r)) k)
@@ -219,3 +218,4 @@
                                    (= (select (select (Mem h) (select (Larr h0) r)) j) (select (select (Mem h0) (select (Larr h0) r)) j)))
                                :pattern ((select (select (Mem h) (select (Larr h0) r)) j))))))
      :pattern ((select (Kind h0) r)))))
+(define-fun even ((x Int)) Bool (= (mod x 2) 0))
